@@ -85,6 +85,9 @@ theorem Evo.r_setNominated {a b : Agent} (h : Evo a b) (id : Nat) (hid : id ∈ 
     Evo a { b with nominatedPair := some id } :=
   h.trans (Evo.setNominatedPair b id (h.ids ▸ hid))
 
+/-- recording the answered renomination value touches nothing the bookkeeping view reads -/
+theorem Same.answered (a : Agent) (v : Option Nat) : Same a { a with answeredNomination := v } := rfl
+
 /-- peel helper applications off the right-hand agent until a hypothesis closes the goal;
 side goals `id ∈ idsOf a` are closed by `assumption` -/
 macro "evo_auto" : tactic => `(tactic| repeat (first
@@ -101,7 +104,8 @@ macro "evo_auto" : tactic => `(tactic| repeat (first
   | refine Evo.r_same ?_ (Same.pingAll _ _)
   | refine Evo.r_same ?_ (Same.seenLocalSent _ _ _)
   | refine Evo.r_same ?_ (Same.seenRemoteRecv _ _ _)
-  | refine Evo.r_same ?_ (Same.takePending _ _ _)))
+  | refine Evo.r_same ?_ (Same.takePending _ _ _)
+  | refine Evo.r_same ?_ (Same.answered _ _)))
 
 /-! ## `handleSuccess` -/
 
@@ -259,9 +263,12 @@ def cldNom (a : Agent) (id : Nat) (m : Msg) : Agent × List Out :=
           | some sp =>
             if sp.id == id then false
             else if m.nom.isSome then true
+            else if a.lastNomination.isSome then false
             else !needsPrioCheck a.cfg || a.pairPrio sp < a.pairPrio p
         if sw then a.select id else (a, [])
-      else (a.modPair id fun p => { p with nomOnSuccess := true, deferredNom := m.nom }, [])
+      else if m.nom.isSome || p.deferredNom.isNone then
+        (a.modPair id fun p => { p with nomOnSuccess := true, deferredNom := m.nom }, [])
+      else (a, [])
   else (a, [])
 
 def cldTrig (a : Agent) (now id : Nat) (l r : Cand) : Agent × List Out :=
